@@ -8,6 +8,8 @@ TYPES = {
     "odict": ("OrderedDict([('k', 1)])", "OrderedDict([('k', 2)])"), "ppath": ("PurePosixPath('a')", "PurePosixPath('b')"),
     "none_int": ("None", "3"), "nested": ("{'k': [1, (2, 3)]}", "{'k': [1, (2, 4)]}"),
     "bigint": ("2**40", "2**40 + 1"), "empties": ("[]", "{}"), "negint": ("-1", "1"),
+    # same entries in another order: what the function returns (str(V), a header line, the first key) depends on it
+    "dict_order": ("{'a': 1, 'b': 2}", "{'b': 2, 'a': 1}"), "set_like_list": ("[1, 2]", "[2, 1]"),
 }
 CONTEXTS = ["stmt", "if", "else", "for", "while", "with", "try", "finally", "listcomp", "genexp", "dictlit", "fstring", "ifexp",
             "boolop", "kwarg", "star", "subscript", "augassign", "annassign", "walrus", "assert", "multiline", "nested_def", "tuple",
